@@ -115,8 +115,10 @@ def _analyze_node(node, config: Config, cwd: Path, *, remote: bool = False) -> D
             cd_target = _extract_cd_target(parts[0])
             if cd_target:
                 effective_cwd = _resolve_cd_target(cd_target, cwd)
+        # The cd itself still runs in the old directory (cd ./prod matches "deny cd /srv/prod")
         decisions = [
-            _analyze_node(p, config, effective_cwd, remote=remote) for p in parts
+            _analyze_node(p, config, cwd if i == 0 else effective_cwd, remote=remote)
+            for i, p in enumerate(parts)
         ]
         result = _combine(decisions)
         if result.action == "allow":
